@@ -144,7 +144,7 @@ pub fn run_case(base: Instant, c: &Case) -> Result<Option<Out>, String> {
             cc.token_store(st);
             let cch = w.connect(CLIENT, SERVER, cc.clone(), StdApp::new(Side::Client, cp.clone()));
             w.settle_conn(CLIENT, cch);
-            crate::sim::Pair { w, keylog, cch, client_cfg: cc }
+            crate::sim::Pair { w, keylog, cch, client_cfg: cc, cfg_name: String::new() }
         };
         let mut n = 0;
         while n < 3000 && !(crate::scen::workload_done(&p) && p.w.net.is_empty()) {
